@@ -45,6 +45,9 @@ FIXED = [
     ("C15", "359d328", "run(0) followed by run(n) repeated the log header and the step-0 observer call", []),
     ("C20", "f54fa68", "no driver ever delivered on_cell_changed", []),
     ("C07", "1d8072d", "restart file written through MonteCarlo.to_dict (alias bound at class creation): subclass settings missing, Isobaric/Isotension.from_dict TypeError; ForceBias could not be written", []),
+    ("C03", "1dd570a", "per-atom arrays carried only by the exchange template (initial_charges, tags, ...) stayed on the atoms after a vetoed or rejected insertion (and made ASE calculators recompute)",
+     ["C03|state_changed_by_nonaccepted_trial|component=arrays:initial_charges:appeared|driver=GrandCanonical|move=exch|verdict=False|constraints=none",
+      "C03|state_changed_by_nonaccepted_trial|component=arrays:tags:appeared|driver=GrandCanonical|move=exch|verdict=None|constraints=none"]),
     ("C03", "2c10fec", "CompositeOperation.calculate raised ValueError when summing a (1,3) and an (n,3) result (e.g. Ball + Rotation on a molecule)", []),
 ]
 
